@@ -221,7 +221,26 @@ def tmpl_two_returns(rng):
     return prog
 
 
-def _two_returns_once(rng):
+def tmpl_self_return(rng, with_read=None):
+    """A command whose area holds BOTH a label heart and ♡ first jumps by label (becoming the last jump
+    source) and later takes its ♡ branch, i.e. returns to ITSELF and runs again.  Optionally starts by
+    reading a character so that level-2 pre-execution hands over immediately."""
+    from .refinterp import Machine, Limits
+    prog = None
+    if with_read is None:
+        with_read = rng.random() < 0.5
+    for _ in range(120):
+        prog = _two_returns_once(rng, mixed=True)
+        if with_read:
+            prog = [(5, 1, 0, None), (5, 1, 3, None)] + prog
+        m = Machine(prog, 'xy\n', Limits(steps=400))
+        o, e, end = m.run()
+        if not end.startswith('notadmitted') and m.st['heart_return_to_self']:
+            break
+    return prog
+
+
+def _two_returns_once(rng, mixed=False):
     """Data-driven call/return: several commands share one label key and several carry ♡, all conditional
     on values popped from a preloaded stack, so that two ♡ returns can happen with no label jump between
     them (the last jump source must then still be the LABEL jump's source)."""
@@ -231,12 +250,17 @@ def _two_returns_once(rng):
     n = rng.randint(3, 6)
     forms_a = [lab, ('?', lab, None), ('?', lab, None), ('?', None, lab), ('!', lab, None)]
     forms_b = [13, ('?', 13, None), ('?', 13, None), ('?', None, 13), ('!', None, 13)]
+    forms_m = [('?', lab, 13), ('?', 13, lab), ('?', lab, ('?', 13, None)), ('!', lab, 13), ('?', ('!', lab, 13), None),
+               ('?', None, ('?', lab, 13))]
     code = [(1, 1, 1, lab)]
     for _ in range(n):
-        if rng.random() < 0.5:
+        r = rng.random()
+        if mixed and r < 0.45:
+            code.append((1, 1, 1, rng.choice(forms_m)))
+        elif r < 0.6:
             code.append((1, 1, 1, rng.choice(forms_a)))
         else:
-            code.append((1, 1, 2, rng.choice(forms_b)))
+            code.append((1, 1, 2 if not mixed else rng.choice([1, 2]), rng.choice(forms_b)))
     return prog + code
 
 
@@ -320,6 +344,21 @@ def read_fragment(rng):
     return [(5, 1, 0, ('?', 2, None)), (5, 1, 3, None)]
 
 
+def state_fragment(rng):
+    """Leaves something awkward on the stacks for the hand-over: NaN on a non-empty stack, a fraction, a
+    negative value, a value on stack 0."""
+    k = rng.random()
+    if k < 0.35:
+        return [(0, 1, rng.randint(1, 9), None), (0, 1, 0, None), (4, 1, rng.choice([3, 4, 5]), None)]       # 1/0 -> NaN kept
+    if k < 0.5:
+        return [(0, 1, 3, None), (1, 3, rng.choice([3, 4]), None), (0, 1, 7, None), (1, 3, 3, None)]          # sums over under-filled stack
+    if k < 0.7:
+        return [(0, 1, rng.choice([2, 3, 6]), None), (4, 1, rng.choice([3, 4]), None), (0, 2, 3, None), (2, 2, 3, None)]   # fractions
+    if k < 0.85:
+        return [(0, 1, rng.randint(1, 50), None), (3, 1, rng.choice([3, 4]), None)]                              # negatives
+    return [(0, 1, rng.randint(33, 90), None), (1, 1, 0, None)]                                                  # value on stack 0
+
+
 def tmpl_handover(rng):
     """input-free prefix P ; read ; Q sharing P's label palette (jumps back into P, pending ♡)."""
     k = rng.random()
@@ -335,6 +374,8 @@ def tmpl_handover(rng):
         p = gen_stacky(rng)
     else:
         p = []
+    if rng.random() < 0.45:
+        p = p + state_fragment(rng)
     # prefix ending shape: (a) with an area command, (b) with >= 2 area-less commands, (c) as is
     shape = rng.random()
     if shape < 0.3:
@@ -548,6 +589,7 @@ TEMPLATES = {
     'stacky': lambda rng, ai: gen_stacky(rng),
     'subroutine': lambda rng, ai: tmpl_subroutine(rng),
     'two_returns': lambda rng, ai: tmpl_two_returns(rng),
+    'self_return': lambda rng, ai: tmpl_self_return(rng, with_read=False if not ai else None),
 }
 INPUT_TEMPLATES = {
     'stack0': lambda rng, ai: tmpl_stack0(rng),
